@@ -215,6 +215,13 @@ def alloc_programs():
             '    "test.op"(%sv) {verif.id = 9 : i32} : (memref<?x3xi32, strided<[?, 1], offset: ?>>) -> ()',
             "memref<?x4xi32>",
         ),
+        "affine_min_dim_effect": (
+            "%mn = affine.min affine_map<(d0) -> (2, -d0 + 3)>(%i)\n"
+            "    %sv = memref.subview %m[%i, 0] [%mn, 3] [1, 1] : memref<?x?xi32> to memref<?x3xi32, strided<[?, 1], offset: ?>>\n"
+            "    %d = memref.dim %sv, %c0 : memref<?x3xi32, strided<[?, 1], offset: ?>>\n    %a = memref.alloc(%d) : memref<?x4xi32>\n"
+            '    "test.op"(%d) {verif.id = 8 : i32} : (index) -> ()',
+            "memref<?x4xi32>",
+        ),
         "dim_used_by_effect": (
             "%d = memref.dim %m, %c1 : memref<?x?xi32>\n    %a = memref.alloc(%d) : memref<?x4xi32>\n"
             '    "test.op"(%d) {verif.id = 8 : i32} : (index) -> ()',
